@@ -39,7 +39,7 @@ class C02(Check):
             'non-trivial = counts containing a surplus transfer (a ballot weight decreased) or, meek family, more than one iteration round')
     assumptions = ['bounded election sizes', 'B = ElectionProfile.nBallots (C15 checks it is the sum of kept multipliers)',
                    'equal-rank ballots are read only by meek/warren; other rules count them in B but never credit them (scope limit, not asserted)']
-    budget = {'quick': 115, 'thorough': 2400}
+    budget = {'quick': 240, 'thorough': 3000}
 
     def cases(self, tier):
         yield from families.standard(tier)
